@@ -11,13 +11,18 @@ def EnvOk (cfg0 : Option (ErrKind × Nat)) (evs : List Ev) : Prop :=
     | _ => True
 
 /-- The start Deferred fires exactly once per run: with the last processed offset on stop/shutdown,
-    with a failure that really occurred otherwise; `stop()` returns the same offset. -/
+    with a failure that really occurred otherwise; `stop()` returns the same offset.
+    As stated (every `cfg`, so also `cfg.depth < 2` where the model does not follow the re-entrant `stop()` of a
+    graceful shutdown) it is FALSE of the model: `C13_start_fires_once_counterexample`.  Open for `2 ≤ cfg.depth`. -/
 def C13_start_fires_once : Prop :=
   ∀ (cfg : Cfg) (script : List PEntry) (evs : List Ev), EnvOk none evs →
     C13.startOnceOk (trace cfg script evs) = true
 
 /-- After `stop()` returns: no timer, no uncancelled request, no pending processor result; and no
-    fetch / commit / processor / timer activity until the next `start()`. -/
+    fetch / commit / processor / timer activity until the next `start()`.
+    As stated (every `cfg`, so also `cfg.depth < 2`) FALSE of the model: `C13_quiescent_after_stop_counterexample`.
+    Proved for `2 ≤ cfg.depth` without a consumer group: `C13_quiescent_after_stop_partial`; open for `2 ≤ cfg.depth`
+    with a consumer group (commit requests, commit retry timer, auto-commit looper, commit waiters). -/
 def C13_quiescent_after_stop : Prop :=
   ∀ (cfg : Cfg) (script : List PEntry) (evs : List Ev), C13.quiescentOk (trace cfg script evs) = true
 
@@ -31,7 +36,9 @@ def C13_shutdown_sequence : Prop :=
 def C13_shutdown_waits_inproc : Prop :=
   ∀ (cfg : Cfg) (script : List PEntry) (evs : List Ev), C13.shutdownInprocOk cfg.group (trace cfg script evs) = true
 
-/-- No API call ends in an exception the API does not document. -/
+/-- No API call ends in an exception the API does not document.
+    As stated (every `cfg`, so also `cfg.depth = 0`) FALSE of the model: `C13_no_crash_counterexample` (the "crash" is
+    the model's own `re-entrancy depth` marker).  Open for `1 ≤ cfg.depth`. -/
 def C13_no_crash : Prop :=
   ∀ (cfg : Cfg) (script : List PEntry) (evs : List Ev),
     (∀ e ∈ script, e.acts = []) → C13.noCrashOk (trace cfg script evs) = true
